@@ -120,12 +120,46 @@ def evaluate_post(I, contract, case, call, native_out):
     return "satisfies", "real code satisfies the postcondition on this input"
 
 
+def _find_decls(fs):
+    found = {}
+    seen = set()
+
+    def walk(e):
+        if e.get_id() in seen:
+            return
+        seen.add(e.get_id())
+        if z3.is_app(e):
+            d = e.decl()
+            if d.name() in ("OM", "DIM", "ORD3") and d.kind() == z3.Z3_OP_UNINTERPRETED:
+                found[d.name()] = d
+            for c in e.children():
+                walk(c)
+        elif z3.is_quantifier(e):
+            walk(e.body())
+    for f in fs:
+        walk(f)
+    return found
+
+
 def resolve_with_definitions(smt2_text, timeout_ms=120000):
     """re-solve a failed VC with the calendar definitions revealed (counterexample refinement)."""
-    fs = z3.parse_smt2_string(smt2_text, decls={"OM": cal.OM, "DIM": cal.DIM, "ORD3": cal.ORD3})
+    fs = list(z3.parse_smt2_string(smt2_text))
+    d = _find_decls(fs)
+    v0, v1, v2 = (z3.Var(i, z3.IntSort()) for i in range(3))
+    OMf, DIMf = d.get("OM", cal.OM), d.get("DIM", cal.DIM)
+
+    def rev(e):
+        if "ORD3" in d:
+            e = z3.substitute_funs(e, (d["ORD3"], OMf(12 * v0 + v1 - 1) + v2 - 1))
+        subs = []
+        if "OM" in d:
+            subs.append((d["OM"], cal.om_closed(v0)))
+        if "DIM" in d:
+            subs.append((d["DIM"], cal.dimf(v0)))
+        return z3.substitute_funs(e, *subs) if subs else e
     s = z3.Solver()
     s.set("timeout", timeout_ms)
     for f in fs:
-        s.add(reveal(f))
+        s.add(rev(f))
     r = s.check()
     return {"unsat": "proved", "sat": "failed"}.get(str(r), "unknown"), (s.model() if r == z3.sat else None)
